@@ -147,6 +147,8 @@ pub struct TxResult {
     pub faults_fired: FiredFaults,
     /// ledger deltas of this transaction (zero entries removed); empty when refused
     pub deltas: BTreeMap<(String, String), i128>,
+    /// what the contract asked for (its Ok response), whether or not the chain could carry it out
+    pub emitted: Option<Accepted>,
 }
 
 #[derive(Clone, Copy, Debug, Default)]
@@ -302,6 +304,7 @@ impl Chain {
                     storage_ops: 0,
                     faults_fired: fired,
                     deltas: BTreeMap::new(),
+                    emitted: None,
                 }
             }
         };
@@ -358,6 +361,7 @@ impl Chain {
         let served = self.querier.take_served();
 
         let mut overdraft = None;
+        let mut emitted: Option<Accepted> = None;
         let outcome = match r {
             Err(p) => {
                 if p.downcast_ref::<InjectedAbort>().is_some() {
@@ -370,6 +374,7 @@ impl Chain {
             Ok(Err(e)) => Outcome::Refused(Refusal::Error(e.to_string())),
             Ok(Ok(resp)) => {
                 let acc = decode_response(&resp, &self.contract);
+                emitted = Some(acc.clone());
                 // dispatch in order
                 let mut failure: Option<Refusal> = None;
                 if !acc.foreign_msgs.is_empty() {
@@ -387,6 +392,25 @@ impl Chain {
                         if fail_idx == Some(i) && nmsg > 0 {
                             fired.dispatch_fail = true;
                             failure = Some(Refusal::InjectedDispatch);
+                            break;
+                        }
+                        // the two module rules that make a request fail on a real chain:
+                        // the bank refuses zero coins, and the marker module only transfers
+                        // coins of restricted markers
+                        if x.amount == 0 {
+                            failure = Some(Refusal::Dispatch(format!(
+                                "message {}: zero amount of {} is not a valid coin",
+                                i, x.denom
+                            )));
+                            break;
+                        }
+                        if x.mech == Mech::Marker
+                            && self.querier.markers.get(&x.denom).copied().unwrap_or(0) != 2
+                        {
+                            failure = Some(Refusal::Dispatch(format!(
+                                "message {}: marker transfer of {} which is not a restricted marker",
+                                i, x.denom
+                            )));
                             break;
                         }
                         Chain::credit(&mut self.ledger, &x.from, &x.denom, -(x.amount as i128));
@@ -435,6 +459,7 @@ impl Chain {
             storage_ops: ops,
             faults_fired: fired,
             deltas,
+            emitted,
         }
     }
 
